@@ -119,6 +119,18 @@ class SymReal:
             MOD_HOOK(r)
         return SymReal(r)
 
+    def __round__(self, ndigits=None):
+        """round(x, nd): a fresh integer k with |x * 10^nd - k| <= 1/2, returned as k / 10^nd (ties are left to the solver: either way)"""
+        nd = 0 if ndigits is None else int(ndigits)
+        ex = cur()
+        ex.nfresh = getattr(ex, "nfresh", 0) + 1
+        k = z3.Int(f"round{ex.nfresh}")
+        ex.inputs.vars[f"round{ex.nfresh}"] = k
+        scale = Fraction(10) ** nd
+        ex.assume_expr(z3.ToReal(k) - R(Fraction(1, 2)) <= self.e * R(scale))
+        ex.assume_expr(self.e * R(scale) <= z3.ToReal(k) + R(Fraction(1, 2)))
+        return SymIntR(k) if ndigits is None else SymReal(z3.ToReal(k) / R(scale))
+
     def __float__(self):
         raise PathAbort("float() of SymReal")
 
